@@ -31,6 +31,9 @@ type Config struct {
 	NoEcho bool
 	// EmptyOverride enables the wrapper kind whose full message is "".
 	EmptyOverride bool
+	// RichArgs: printf arguments and tag values of application types
+	// (redact.SafeFormatter with an unsafe part, fmt.Stringer).
+	RichArgs bool
 	// Alias: a multi-cause node may hold the same object in two branches.
 	Alias bool
 	// Verbs: printf-style constructors use other verbs than the default
@@ -276,8 +279,19 @@ func (g *Gen) fill(k Kind, depth int, hidden bool) *Node {
 				a = Arg{Kind: ArgErr, Hid: len(n.Hid)}
 				n.Hid = append(n.Hid, g.node(depth+1, true))
 			}
+			if g.Cfg.RichArgs && (a.Kind == ArgUnsafeStr || a.Kind == ArgInt) && g.T.Bool(1, 4) {
+				if g.T.Bool(1, 2) {
+					sp := g.SG.Str(true)
+					sp.Neutral = true
+					a = Arg{Kind: ArgSafeFmt, S: sp, S2: g.SG.Str(false)}
+				} else {
+					a = Arg{Kind: ArgStringer, S: g.SG.Str(false)}
+				}
+			}
 			if g.Cfg.Verbs && g.T.Bool(1, 3) {
 				switch a.Kind {
+				case ArgSafeFmt, ArgStringer:
+					a.Verb = []string{"%v", "%s", "%q", "%+v"}[g.T.Draw(4)]
 				case ArgUnsafeStr, ArgSafeStr:
 					a.Verb = []string{"%v", "%q", "%#v", "%+v"}[g.T.Draw(4)]
 				case ArgInt:
@@ -286,10 +300,15 @@ func (g *Gen) fill(k Kind, depth int, hidden bool) *Node {
 					a.Verb = []string{"%s", "%+v", "%q", "%#v"}[g.T.Draw(4)]
 				}
 			}
-			if k == WSafeDetails && a.Kind == ArgUnsafeStr {
+			if k == WSafeDetails {
 				// WithSafeDetails redacts unsafe arguments away at
 				// construction: the token exists nowhere afterwards.
-				a.S.Tok = ""
+				switch a.Kind {
+				case ArgUnsafeStr, ArgStringer:
+					a.S.Gone = true
+				case ArgSafeFmt:
+					a.S2.Gone = true
+				}
 			}
 			n.A = append(n.A, a)
 		}
@@ -319,6 +338,9 @@ func (g *Gen) fill(k Kind, depth int, hidden bool) *Node {
 				v = Arg{Kind: ArgInt, N: g.T.Draw(1000)}
 			default:
 				v = Arg{Kind: ArgInt, N: -1} // nil value
+			}
+			if g.Cfg.RichArgs && g.T.Bool(1, 6) {
+				v = Arg{Kind: ArgStringer, S: g.SG.Str(false)}
 			}
 			n.T = append(n.T, Tag{Key: key, Val: v})
 		}
